@@ -100,7 +100,7 @@ Definition single_record (op : rop) (before : opobs) : option (Z * Z) :=
   | _ => None
   end.
 Definition rec_partition (op : rop) : option Z :=
-  match op with Pump p _ | Stale p _ | RawRec p _ => Some p | _ => None end.
+  match op with Pump p _ | Stale p _ | RawRec p _ | Ahead p _ => Some p | _ => None end.
 
 (* fold over ops with the observation before and after each *)
 Fixpoint scan {R} (f : rop -> opobs -> opobs -> list R) (ops : list rop) (before : opobs) (l : list opobs) : list R :=
@@ -119,7 +119,7 @@ Definition fail := (Z * list Z)%type.
 Definition c07_flags (op : rop) (b a : opobs) : list fail :=
   match op with
   | MainRec p o => if list_eqb emit_eqb (b_emits a) [(p, o, false)] then [] else [(2, [1])]
-  | Pump p _ | Stale p _ | RawRec p _ =>
+  | Pump p _ | Stale p _ | RawRec p _ | Ahead p _ =>
       if forallb (fun e => snd e && (fst (fst e) =? p)
                            && (in_win (pget p (b_active b)) (snd (fst e)) || in_win (pget p (b_active a)) (snd (fst e))
                                || existsb (fun r => in_win (Some r) (snd (fst e))) (reqs_of (b_trk b) p)))
@@ -403,6 +403,7 @@ Definition dec_op (t : tree) : option rop :=
       if forallb (fun x => okp (fst x)) pcs then Some (MAssign ce pcs) else None
   | T [L 11; m] => m <- dec_msg m ;; Some (Deliver m)
   | T [L 12] => Some Crash
+  | T [L 13; L p; L d] => if okp p then Some (Ahead p d) else None
   | _ => None
   end.
 Definition dec_input (t : tree) : option input :=
@@ -488,7 +489,8 @@ Definition obs_diffs (m o : obs) : list Z :=
    10 recovery events emitted, 11 completion by a record, 12 truncation moved a from, 13 truncation closed a request,
    14 crash while a request is outstanding, 15 coverage judged on a completed request, 16 coverage judged on an
    outstanding request that has progressed, 17 a refresh re-assigned the client, 18 a record was emitted twice,
-   19 timing case with n > 100, 20 several partitions active at once, 21 main and recovery events in one case *)
+   19 timing case with n > 100, 20 several partitions active at once, 21 main and recovery events in one case,
+   22 a straggler ahead of the client's position was emitted *)
 Definition tag_if (b : bool) (t : Z) : list Z := if b then [t] else [].
 Fixpoint has_dup (l : list (Z * Z)) : bool :=
   match l with [] => false | x :: r => existsb (zz_eqb x) r || has_dup r end.
@@ -527,6 +529,9 @@ Definition tags (i : input) : list Z :=
       ++ tag_if (existsb (fun a => (2 <=? length (b_active a))%nat) l) 20
       ++ tag_if (negb (match ems with [] => true | _ => false end)
                  && existsb (fun op => match op with MainRec _ _ => true | _ => false end) ops) 21
+      ++ tag_if (existsb (fun x => match x with (op, a) =>
+                    match op with Ahead _ _ => negb (match b_emits a with [] => true | _ => false end) | _ => false end end)
+                  (combine ops l)) 22
   end.
 
 Definition enc_fail (prop : Z) (f : fail) : tree := clause prop (fst f) (map L (snd f)).
